@@ -3,8 +3,8 @@
 // StartLFBTicketWorker event loop are driven with every sequence of ticket / local-broadcast
 // events up to the depth bound. The worker is a single-goroutine event loop, so with one event
 // delivered at a time (barrier: queue drained, then a GetLatestLFBTicket round trip) every
-// interleaving of the loop is an order of events; bursts of two events delivered back-to-back
-// additionally exercise the "drain the channel, keep the highest" path (outcome-insensitive oracle).
+// interleaving of the loop is an order of events; the "drain the channel, keep the highest" path is
+// covered by queueing every batch of events while the worker is parked (every cut of every sequence).
 package main
 
 import (
@@ -58,6 +58,7 @@ func main() {
 	if len(os.Args) < 2 || os.Args[1] != "C41" {
 		ev.Fatal("usage: lfb C41 [quick|thorough]")
 	}
+	runtime.GOMAXPROCS(1) // the worker only runs when this goroutine yields: batches are queued atomically
 	run := ev.Start("C41")
 	selfSharder := false
 	for _, a := range os.Args[2:] {
@@ -199,23 +200,95 @@ func main() {
 	for target = 1; target <= depth; target++ { // shortest sequences first: a reported case is minimal
 		rec(nil)
 	}
-	// bursts: every ordered pair delivered back-to-back (the worker may batch them)
-	for _, a := range alpha {
-		for _, b := range alpha {
-			base = lastRound + 10
-			deliver(a)
-			deliver(b)
-			check([]event{a, b}, "burst of two")
-			run.Add(0, 2, 1)
+	// batches: every sequence of length 2..burstLen, under every way of cutting it into consecutive
+	// batches with at least one batch of two or more events. All events of a batch are queued while the
+	// worker is parked at its select (single P, no yield between the deliveries; confirmed per batch by
+	// the queue length), so the worker's "drain the channel, keep the highest" loop sees exactly that
+	// batch. With events in both channels the runtime's select choice picks one channel's batch first:
+	// either resolution is another (sequence, cut) of this enumeration.
+	burstLen := run.Pick(3, 4)
+	confirmed, unconfirmed := 0, 0
+	deliverBatch := func(batch []event) bool {
+		barrier()
+		queued := 0
+		for _, e := range batch {
+			before := c.VerifPendingLFBTickets()
+			deliver(e)
+			after := c.VerifPendingLFBTickets()
+			if before != queued || after < before { // the worker ran in between
+				return false
+			}
+			queued = after
 		}
+		return true
+	}
+	var cuts func(n int) [][]int // compositions of n
+	cuts = func(n int) [][]int {
+		if n == 0 {
+			return [][]int{nil}
+		}
+		var out [][]int
+		for first := 1; first <= n; first++ {
+			for _, rest := range cuts(n - first) {
+				out = append(out, append([]int{first}, rest...))
+			}
+		}
+		return out
+	}
+	var brec func(prefix []event, n int)
+	brec = func(prefix []event, n int) {
+		if time.Now().After(deadline) {
+			return
+		}
+		if len(prefix) == n {
+			for _, cut := range cuts(n) {
+				if len(cut) == n {
+					continue // all singletons: the one-at-a-time enumeration above
+				}
+				okAll := false
+				for try := 0; try < 50 && !okAll; try++ {
+					base = lastRound + 10
+					pos := 0
+					okAll = true
+					for _, k := range cut {
+						if !deliverBatch(prefix[pos : pos+k]) {
+							okAll = false
+							check(prefix[:pos+k], "batch not confirmed, retried") // still a real run: the oracle applies
+							break
+						}
+						pos += k
+						check(prefix[:pos], fmt.Sprintf("batches %v", cut))
+					}
+				}
+				if okAll {
+					confirmed++
+				} else {
+					unconfirmed++
+				}
+				run.Add(0, int64(n), 1)
+			}
+			return
+		}
+		for _, e := range alpha {
+			brec(append(append([]event{}, prefix...), e), n)
+		}
+	}
+	for n := 2; n <= burstLen; n++ {
+		brec(nil, n)
+	}
+	run.Bounds["batch_sequence_length"] = burstLen
+	run.Bounds["batched_runs_confirmed"] = confirmed
+	run.Bounds["batched_runs_not_confirmed"] = unconfirmed
+	if unconfirmed > 0 {
+		run.Capped(fmt.Sprintf("%d batched runs could not be confirmed as queued together", unconfirmed))
 	}
 	if time.Now().After(deadline) {
 		run.Capped("time budget hit")
 	}
-	run.Rule = "all sequences up to the depth bound over {ticket(signer in {MB sharder s0, s1, registered miner, unregistered key}, relative round, valid / bad / forged signature), local LFB broadcast (sharder variant)} delivered one at a time to the real LFBTicketHandler + StartLFBTicketWorker with a drain barrier after each; plus every ordered pair as a burst; oracle after every event: reported round never decreases, an adopted received ticket is validly signed by a sharder of the current magic block; distinct = distinct (sequence, reported round) pairs"
+	run.Rule = "all sequences up to the depth bound over {ticket(signer in {MB sharder s0, s1, registered miner, unregistered key}, relative round, valid / bad / forged signature), local LFB broadcast (sharder variant)} delivered one at a time to the real LFBTicketHandler + StartLFBTicketWorker with a drain barrier after each; plus every sequence up to the batch length under every cut into consecutive batches queued together while the worker is parked (the worker drains a batch in one iteration); oracle after every event: reported round never decreases, an adopted received ticket is validly signed by a sharder of the current magic block; distinct = distinct (sequence, reported round) pairs"
 	run.Bounds["depth"] = depth
 	run.Bounds["alphabet"] = len(alpha)
 	run.Bounds["self_is_sharder"] = selfSharder
-	run.Assumptions = []string{"the worker's internal select choice and batching are exercised (bursts) but not enumerated: the oracle is insensitive to them", "timers (rebroadcast) only resend the latest ticket and are left running on the wall clock"}
+	run.Assumptions = []string{"batching of the worker is enumerated (every cut of every sequence up to the batch length, confirmed by the queue length); the select choice between the two input channels is left to the runtime, each resolution being another enumerated (sequence, cut)", "timers (rebroadcast) only resend the latest ticket and are left running on the wall clock"}
 	run.Finish()
 }
